@@ -114,6 +114,12 @@ class Peer:
             ok = F.valid_response(req, s.payload_fn)
             if 'exc' in letter:
                 self._send(F.exception_response(req, letter['exc']) if req['kind'] != 'aa55' else ok)
+            elif 'other' in letter:
+                # a well-formed answer to ANOTHER request (the given fields replace this request's), `delay` x timeout after the transmission:
+                # e.g. what the device would answer to the request of a second caller that is still waiting for its turn
+                other = dict(req); other.update(letter['other'])
+                if req['kind'] == 'tcp': other['tx'] = (req['tx'] + letter.get('tx_delta', 0)) & 0xFFFF
+                self._later(letter.get('delay', 0.3) * T, F.valid_response(other, s.payload_fn))
             elif 'late' in letter:
                 self._later(letter['late'] * T, ok)          # the whole answer, late but before this transmission's timeout (late < 1)
             else:
